@@ -157,6 +157,12 @@ func scripted(c *core.Ctx, r *core.Rand, i int) {
 				resp.BatchItem[0].Operation = 0
 				resp.BatchItem[0].UniqueBatchItemID = nil
 			}
+			if (cm+sm)%2 == 1 {
+				// a server that predates Discover Versions is a 1.0 server: it answers in ITS version, not in the
+				// version of the message it did not understand
+				resp.Header.ProtocolVersion = kmip.V1_0
+				c.Count("discovery_refused_in_a_1.0_message", 1)
+			}
 			return resp
 		case "lists-not-offered":
 			list = desc(S)
@@ -578,7 +584,7 @@ func Spec() *core.Spec {
 		Level: "exploration",
 		Rule: "exhaustive: 31 non-empty client subsets x 32 server subsets of {1.0..1.4} x server behaviour {conformant, discovery unsupported (failed item; failed item without operation echo), lists versions not offered, unordered list, empty list} x {enforced, not enforced} against a scripted server that records every request header " +
 			"(two requests and one cloned client after each Dial; client options given in seeded order with duplicates), plus 31 x 31 against the library's own executor restricted with SetSupportedProtocolVersions; compared with a 10-line reference function. every scripted case through Dial and through DialCluster; sequences of 2-6 default-set clients against servers with different subsets in one process; seeded arbitrary server lists (duplicates, versions unknown to the library, any order/length) and discovery failing with other reasons; distinct = distinct configurations",
-		Required: []string{"dials.conformant", "dials.reused-options", "dials.discovery-unsupported", "dials.lists-not-offered", "dials.unordered", "dials.empty-list", "dials.discovery-unsupported-no-operation-echo", "dials.default-set", "dials.library-server", "dials.cluster", "dials.arbitrary-lists", "arbitrary.discovery-failed", "expected_failures", "followup_headers"},
+		Required: []string{"dials.conformant", "dials.reused-options", "discovery_refused_in_a_1.0_message", "dials.discovery-unsupported", "dials.lists-not-offered", "dials.unordered", "dials.empty-list", "dials.discovery-unsupported-no-operation-echo", "dials.default-set", "dials.library-server", "dials.cluster", "dials.arbitrary-lists", "arbitrary.discovery-failed", "expected_failures", "followup_headers"},
 		Families: []core.Family{
 			{Name: "scripted", Exhaustive: true, N: func(string) int { return 31 * 32 * 6 * 2 * 2 }, Run: scripted},
 			{Name: "library-server", Exhaustive: true, N: func(string) int { return 31 * 31 }, Run: libraryServer},
